@@ -725,15 +725,23 @@ def pick_tasks(ctx, offset=0, only_envs=None):
     tasks += [dict(make_task(n, b, 0, 0, 1, 1, 1), expect_unsupported=True)
               for n in NAMES for b in NATIVE if b not in SUPPORTED[n]]
     return tasks
-  # quick: 4 pairs over 4 distinct environments and all three backends, by seed
-  envs_ = [n for n in NAMES if n != 'swimmer' and (not only_envs or n in only_envs)]
-  chosen = list(rng.choice(envs_, size=min(4, len(envs_)), replace=False))
+  # quick: 6 of the 11 environments -- a window that rotates with the seed, so two consecutive seeds
+  # cover all of them -- each on one native backend (all three occur); one process per pair so the jit
+  # cost (15-40 s per pair) is paid in parallel.  VERIF_C16_ENVS=a,b overrides the window (debugging).
+  envs_ = [n for n in NAMES if not only_envs or n in only_envs]
+  forced = [n for n in os.environ.get('VERIF_C16_ENVS', '').split(',') if n in NAMES]
+  if forced and not only_envs:
+    chosen = forced
+  else:
+    start = (6 * (ctx.seed + offset)) % len(envs_)
+    chosen = [envs_[(start + i) % len(envs_)] for i in range(min(6, len(envs_)))]
   shift = int(rng.integers(0, 3))
-  tasks = [make_task(n, SUPPORTED[n][(i + shift) % len(SUPPORTED[n])], ctx.seed + offset, 50, 8, 30, 1)
-           for i, n in enumerate(chosen)]
-  if not only_envs or 'swimmer' in only_envs:
-    # swimmer is the environment with a known platform problem (D6): always probed, short
-    tasks.append(make_task('swimmer', 'generalized', ctx.seed + offset, 12, 8, 8, 1))
+  tasks = []
+  for i, n in enumerate(chosen):
+    b = SUPPORTED[n][(i + shift) % len(SUPPORTED[n])]
+    tasks.append(make_task(n, b, ctx.seed + offset, 50, 8, 30, 1))
+  # heaviest first so the pool drains evenly
+  tasks.sort(key=lambda t: (t['name'] not in HUMANOIDS, t['backend'] != 'generalized'))
   return tasks
 
 
@@ -757,14 +765,14 @@ def _collect(ctx, tasks, procs):
 
 def correspond(ctx):
   tasks = pick_tasks(ctx)
-  c = _collect(ctx, tasks, ctx.budget(5, 8))
+  c = _collect(ctx, tasks, ctx.budget(8, 8))
   return dict(
       evaluations=c['evaluations'], distinct_nontrivial=c['states'],
       rule='one evaluation = one (environment, backend, step, batch row): the Lean env model fed with the '
            "implementation's pipeline state before/after the step and the action, compared with obs/reward/done/"
            'metrics of the real step (1e-9 relative under x64, 2e-5 for the float32-only inverted_double_pendulum); '
-           'distinct = distinct driver input lines; quick: 4 pairs by seed over 4 environments and the 3 native '
-           'backends + a swimmer probe, 50 steps, batch 8 (4 uniform + 4 bang-bang rows), episode_length 30 so the '
+           'distinct = distinct driver input lines; quick: 6 of the 11 environments (window rotating with the seed: two '
+           'consecutive seeds cover all), one native backend each, 50 steps, batch 8 (4 uniform + 4 bang-bang rows), episode_length 30 so the '
            'time-limit auto-reset is exercised; thorough: all 31 supported pairs, 200-1000 steps, model on every 5th '
            'step + the first 20 + every step with a termination',
       samples=c['samples'][:5], disagreements=c['dis'], spec_failures=c['fails'],
@@ -793,7 +801,7 @@ def search(ctx, broken, corr):
   tasks = pick_tasks(ctx, offset=1000, only_envs=named or None)
   if ctx.tier == 'thorough':
     tasks += pick_tasks(ctx, offset=2000, only_envs=named or None)
-  return _collect(ctx, tasks, ctx.budget(5, 8))['fails']
+  return _collect(ctx, tasks, ctx.budget(8, 8))['fails']
 
 
 def replay(ctx, rp):
